@@ -4,6 +4,8 @@ property it breaks, record what the check reported, undo the change.  Writes see
 usage: seed_matrix.py [name ...]      (default: all)"""
 import os, sys, json, subprocess, re, time
 V = "/verif"; R = "/repo"
+# the checks run here see a deliberately modified /repo: their evidence records must not replace the ones of the unchanged tree
+os.environ["VERIF_EVIDENCE_DIR"] = V + "/.work/evidence_seeded"
 def sh(cmd, cwd=None, timeout=3600):
     p = subprocess.run(cmd, cwd=cwd, shell=isinstance(cmd, str), stdout=subprocess.PIPE, stderr=subprocess.STDOUT, timeout=timeout)
     return p.returncode, p.stdout.decode(errors="replace")
